@@ -6,7 +6,9 @@ are compared on sweeps that include extreme regimes (high vol-of-vol, tiny varia
 predicate (real code): shape (paths, steps), first column == requested / documented default initial
 state, finiteness, positivity of exponential-type prices, non-negative variances, volatility ==
 sqrt(max(variance, 0)), requested dtype; instruments: all buffers one shape, re-simulation with a
-different path count / horizon replaces every buffer.
+different path count / horizon replaces every buffer; horizons that are not multiples of dt (below, at and above half a step, on the default and
+other time grids, passed to simulate() or as the maturity of a derivative): (n_paths, n_steps + 1) with n_steps the minimum integer such that
+n_steps * dt >= horizon, on every primary class.
 correspondence with the system model (Model/InstrSys.lean, op "instr_sys", theorems Lemmas/C11Buffers.lean): every instrument session
 (repeated simulate() with changing n_paths / horizon on every primary class and dtype, user register_buffer calls in between that
 overwrite a simulated buffer with another shape) is replayed in the model; after every call the buffers' names, dtypes, shapes, the
@@ -187,8 +189,8 @@ def check(ctx):
                 ctx.fail("after a zero-horizon simulation the buffers are not finite series of shape (n_paths, 1)", case, key=f"instrument:{iname}:one-step:value",
                          detail={k: list(b.shape) for k, b in bufs.items()})
     # ---------------- instruments
-    def build(name, dtype):
-        kw = {"dtype": dtype}
+    def build(name, dtype, dt=1 / 250):
+        kw = {"dtype": dtype, "dt": dt}
         if name == "LocalVolatilityStock":
             return I.LocalVolatilityStock(lambda t, s: torch.full_like(s, 0.2), **kw)
         if name == "HestonStock":
@@ -197,6 +199,9 @@ def check(ctx):
             return I.CIRRate(sigma=g.choice([0.2, 2.0]), **kw)
         return getattr(I, name)(**kw)
     prims = ["BrownianStock", "HestonStock", "CIRRate", "VasicekRate", "MertonJumpStock", "KouJumpStock", "RoughBergomiStock", "LocalVolatilityStock"]
+    GRID_DTS = [1 / 250, 1 / 250, 1 / 365, 0.01, 0.1]
+    FRACS_FIRST = [0.25, 0.5, 0.75]         # first round of the systematic part: every class below, at and above half a step
+    FRACS = [0.0, 0.0, 0.0, 0.1, 0.24, 0.25, 0.4, 0.5, 0.5, 0.6, 0.75, 0.9]
     import c17 as SYS                       # the system model's harness side (scenario format, comparison)
     SHORT = {"float32": "f32", "float64": "f64", None: None}
     sessions = []                           # (scenario, real execution) per instrument session, for op "instr_sys"
@@ -206,8 +211,10 @@ def check(ctx):
     for it in range(len(plan) + n_rand):
         name, dname = plan[it] if it < len(plan) else (g.choice(prims), g.choice(["float32", "float64", None]))
         dtype = None if dname is None else getattr(torch, dname)
-        inst = build(name, dtype)
-        case = {"instrument": name, "dtype": str(dname)}
+        # the time grid: the library's default step and other legal ones (daily on a 365-day year, coarse decimal steps)
+        dt_i = 1 / 250 if (it < len(plan) and it % 2 == 0) else g.choice(GRID_DTS)
+        inst = build(name, dtype, dt_i)
+        case = {"instrument": name, "dtype": str(dname), "dt": dt_i}
         ctx.case(case | {"it": it}, True, tag="instrument")
         ctx.traces += 1
         ctx.stats[f"instrument={name}"] += 1
@@ -226,7 +233,14 @@ def check(ctx):
             sess_out.append(("op", ("ok", None), o_, ob_))
         n_rounds = 3 if it < len(plan) else g.choice([1, 2, 3])
         for rnd in range(n_rounds):
-            npaths, hor = g.choice([1, 2, 5]), g.choice([2, 5, 11]) / 250
+            # the horizon in units of dt: k whole steps plus a fraction of a step.  A horizon that is not a multiple of dt (on either
+            # side of half a step, and exactly half a step) needs one more step: "n_steps the minimum integer with n_steps * dt >= horizon"
+            npaths, k_steps = g.choice([1, 2, 5]), g.choice([0, 1, 2, 5, 11, 12])
+            frac = FRACS_FIRST[it % 3] if (it < len(plan) and rnd == 0) else g.choice(FRACS)
+            if k_steps == 0 and frac == 0.0:
+                k_steps = 2                # (the zero horizon is the "one time step" block above)
+            hor = (k_steps + frac) * dt_i
+            via_derivative = g.chance(0.25)
             init = None
             if g.chance(0.5):
                 d0 = inst.default_init_state
@@ -239,18 +253,33 @@ def check(ctx):
                 form = g.choice(["tuple", "scalar", "tensor0"])
                 init_arg = init if form == "tuple" else (init[0] if form == "scalar" else
                                                          torch.tensor(init[0], dtype=(torch.get_default_dtype() if dtype is None else dtype)))
-            st, v, _ = call_impl(inst.simulate, n_paths=npaths, time_horizon=hor, init_state=init_arg)
-            c2 = case | {"round": rnd, "n_paths": npaths, "horizon": hor, "init_state": init,
-                         "init_form": None if init_arg is None else type(init_arg).__name__}
+            if via_derivative:
+                # the horizon reaches the instrument as the maturity of a derivative written on it
+                st, v, _ = call_impl(I.EuropeanOption(inst, maturity=hor).simulate, n_paths=npaths, init_state=init_arg)
+            else:
+                st, v, _ = call_impl(inst.simulate, n_paths=npaths, time_horizon=hor, init_state=init_arg)
+            c2 = case | {"round": rnd, "n_paths": npaths, "horizon": hor, "horizon_in_steps": k_steps + frac, "via_derivative": via_derivative,
+                         "init_state": init, "init_form": None if init_arg is None else type(init_arg).__name__}
+            ctx.stats["instrument:horizon=" + ("multiple_of_dt" if frac == 0.0 else "below_half_step" if frac < 0.5 else
+                                               "half_step" if frac == 0.5 else "above_half_step")] += 1
             if st != "ok":
                 key = "vasicek:recursion" if v == "recursion_error" else f"instrument:{name}:simulate-error"
                 ctx.fail("simulate() raised", c2, key=key, detail=v)
                 break
             T = math.ceil(hor / inst.dt - 1e-8) + 1
+            # the same number from the construction of the horizon (independent of the rounding rule): k whole steps, one more for a
+            # started step, plus the column of t = 0
+            if T != k_steps + (1 if frac > 0.0 else 0) + 1:
+                raise InternalError(f"harness: the grid rule gives {T} columns for a horizon of {k_steps} + {frac} steps")
             record(["prim_sim", 0, npaths, T])
             bufs = dict(inst.named_buffers())
             want = torch.get_default_dtype() if dtype is None else dtype
             for bn, b in bufs.items():
+                if frac > 0.0 and b.dim() == 2 and b.shape[1] != T:
+                    ctx.fail("a horizon that is not a multiple of dt: the buffer does not have (n_paths, n_steps + 1) columns with n_steps the minimum "
+                             "integer such that n_steps * dt >= time_horizon (the simulated period has to cover the horizon, every instrument the same grid)",
+                             c2 | {"buffer": bn}, key=f"instrument:{name}:fractional-horizon:buffer-shape",
+                             detail={"shape": list(b.shape), "expected": [npaths, T], "covered": (b.shape[1] - 1) * inst.dt, "horizon": hor})
                 if tuple(b.shape) != (npaths, T):
                     ctx.fail("after simulate() a buffer does not have shape (n_paths, n_steps): previous simulation not replaced entirely?", c2 | {"buffer": bn},
                              key=f"instrument:{name}:buffer-shape", detail={"shape": list(b.shape), "expected": [npaths, T]})
@@ -376,6 +405,7 @@ def check(ctx):
             c2 = {"engine": ename, "generator": gname, "N": N, "n": n_, "dtype": dname}
             ctx.case(c2 | {"it": it}, True, tag="engine-driven")
             ctx.stats[f"engine-driven={gname}"] += 1
+            cols = n_
             try:
                 if gname == "brownian":
                     o = S.generate_brownian(N, n_, init_state=(0.5,), dtype=dtype, engine=engine)
@@ -390,14 +420,18 @@ def check(ctx):
                     o = S.generate_kou_jump(N, n_, init_state=(1.5,), dtype=dtype, engine=engine)
                     first = 1.5
                 else:
+                    # (a started step counts as a whole one: the horizon is not always a multiple of dt)
+                    frac_e = g.choice([0.0, 0.0, 0.3, 0.5, 0.7])
+                    c2 = c2 | {"horizon_in_steps": n_ - 1 + frac_e}
                     inst = getattr(I, gname)(dtype=dtype, engine=engine)
-                    inst.simulate(n_paths=N, time_horizon=(n_ - 1) / 250)
+                    inst.simulate(n_paths=N, time_horizon=(n_ - 1 + frac_e) / 250)
                     o = inst.spot
                     first = 1.0
+                    cols = n_ + (1 if frac_e > 0.0 else 0)
             except Exception as e:  # noqa
                 ctx.fail("a generator driven by a supplied engine raised", c2, key=f"engine-driven:{gname}:error", detail=repr(e)[:200])
                 continue
-            if tuple(o.shape) != (N, n_) or o.dtype != dtype or not bool(o.isfinite().all()):
+            if tuple(o.shape) != (N, cols) or o.dtype != dtype or not bool(o.isfinite().all()):
                 ctx.fail("a generator driven by a supplied engine returned a malformed series", c2, key=f"engine-driven:{gname}:shape",
                          detail={"shape": list(o.shape), "dtype": str(o.dtype)})
                 continue
@@ -436,5 +470,6 @@ def check(ctx):
     return ctx.finish(
         rule="nine generators x parameter sweeps (non-default initial states, high vol-of-vol / tiny variance, zero and high jump intensities) x "
              "float32/float64; random-number engines (antithetic: shape, dtype, closure under negation; Sobol/Box-Muller: equals the Box-Muller "
-             "transform of the Sobol points) and generators / instruments driven by them; named-tuple volatility/variance; eight primary instruments with repeated simulate() under changing path counts / horizons / initial states; every case "
+             "transform of the Sobol points) and generators / instruments driven by them; named-tuple volatility/variance; eight primary instruments with repeated simulate() under changing path counts / horizons (multiples of dt and "
+             "fractional numbers of steps on several time grids, directly and through a derivative's maturity) / initial states; every case "
              "non-trivial; distinct = sha1 of canonical case")
